@@ -332,29 +332,67 @@ fn pair_text(a: u32, b: u32) -> String { format!("/<{};{}>/*", a, b) }
 fn lib_template_str(d: &str) -> Option<String> { catch_unwind(AssertUnwindSafe(|| WalletPolicy::from_str(d).ok().map(|w| w.to_string()))).unwrap_or(Some("PANIC".into())) }
 fn hex_or_err(s: &Option<String>) -> String { match s { Some(s) => hex(s), None => "ERR".into() } }
 
-fn wp_judge_descriptor(out: &mut Out, text: &str, class: &str) { wp_judge_descriptor_r(out, text, class, true) }
-fn wp_judge_descriptor_r(out: &mut Out, text: &str, class: &str, api_route: bool) {
+/// `Some(expected)`: a fixed probe of a class that goes BEYOND C10's statement (BIP-388 conformance): the J line is
+/// written only while the library agrees with the specification's answer, otherwise the case is an OBSERVATION
+/// (counted, never a failure).  `None`: generated case of a class whose probe agrees today.
+type Expect<'a> = Option<Option<&'a str>>;
+fn judge_or_observe(out: &mut Out, line: String, lib: &Option<String>, expected: Expect, obs: &str) {
+    match expected {
+        Some(e) if lib.as_deref() != e => {
+            out.count(&format!("observation: wallet-policy {}", obs));
+        }
+        _ => out.line(&line, "ok"),
+    }
+}
+
+/// C10 proper: every `WalletPolicy` VALUE the library hands out prints a text that parses back to the same template
+/// (the text of a wallet policy is its template; key information is not part of it) and printing is a fixed point
+fn wp_value_token(w: &WalletPolicy) -> String {
+    guard(|| {
+        let s = w.to_string();
+        let w2 = match WalletPolicy::from_str(&s) { Ok(w2) => w2, Err(_) => return "fail:own-display-unparseable".into() };
+        let tpl = |x: &WalletPolicy| { let d = format!("{:?}", x); d.split(", key_info:").next().unwrap_or("").to_string() };
+        if tpl(&w2) != tpl(w) { return "fail:template-differs".into(); }
+        if w2.to_string() != s { return "fail:not-fixed-point".into(); }
+        "pass".into()
+    })
+}
+fn wp_value_rt(out: &mut Out, input: &str, d: Option<&Descriptor<DescriptorPublicKey>>) {
+    let mut toks = vec![];
+    if let Ok(Ok(w)) = catch_unwind(AssertUnwindSafe(|| WalletPolicy::from_str(input))) { toks.push(wp_value_token(&w)); }
+    if let Some(d) = d { if let Ok(Ok(w)) = catch_unwind(AssertUnwindSafe(|| WalletPolicy::from_descriptor(d))) { toks.push(wp_value_token(&w)); } }
+    if toks.is_empty() { return; }
+    let tok = toks.iter().find(|t| *t != "pass").cloned().unwrap_or_else(|| "pass".into());
+    out.count(&format!("rt walletpolicy-value {}", tok));
+    out.line(&format!("J rt walletpolicy-value {} {}", hex(input), tok), "ok");
+}
+
+fn wp_judge_descriptor(out: &mut Out, text: &str, class: &str) { wp_judge_descriptor_r(out, text, class, None) }
+fn wp_judge_descriptor_r(out: &mut Out, text: &str, class: &str, expected: Expect) {
     // the descriptor itself must be valid; `{:#}` is the text without checksum
     let d = match Descriptor::<DescriptorPublicKey>::from_str(text) { Ok(d) => d, Err(_) => { out.count(&format!("wp {} descriptor-rejected", class)); return; } };
     let canon = format!("{:#}", d);
     let by_str = lib_template_str(&canon);
     let by_api = catch_unwind(AssertUnwindSafe(|| WalletPolicy::from_descriptor(&d).ok().map(|w| w.to_string()))).unwrap_or(Some("PANIC".into()));
     out.count(&format!("wp {} fromdesc {}", class, if by_api.is_some() { "template" } else { "ERR" }));
-    if api_route { out.line(&format!("J wpfromdesc from_descriptor {} {}", hex(&canon), hex_or_err(&by_api)), "ok"); }
-    out.line(&format!("J wpfromdesc from_str {} {}", hex(&canon), hex_or_err(&by_str)), "ok");
-    // from_descriptor then into_descriptor: the identity
+    judge_or_observe(out, format!("J wpfromdesc from_descriptor {} {}", hex(&canon), hex_or_err(&by_api)), &by_api, expected, class);
+    judge_or_observe(out, format!("J wpfromdesc from_str {} {}", hex(&canon), hex_or_err(&by_str)), &by_str, expected, class);
+    // from_descriptor then into_descriptor: the identity (not claimed by C10; passes today)
     let back = catch_unwind(AssertUnwindSafe(|| WalletPolicy::from_descriptor(&d).ok().and_then(|w| w.into_descriptor().ok()).map(|b| format!("{:#}", b)))).unwrap_or(Some("PANIC".into()));
     if by_api.is_some() { out.line(&format!("J wpback {} {}", hex(&canon), hex_or_err(&back)), "ok"); }
+    wp_value_rt(out, &canon, Some(&d));
 }
 
-fn wp_judge_template(out: &mut Out, t: &str, class: &str) {
+fn wp_judge_template(out: &mut Out, t: &str, class: &str) { wp_judge_template_r(out, t, class, None) }
+fn wp_judge_template_r(out: &mut Out, t: &str, class: &str, expected: Expect) {
     let printed = lib_template_str(t);
     out.count(&format!("wp {} template {}", class, if printed.is_some() { "accepted" } else { "ERR" }));
-    out.line(&format!("J wptemplate {} {}", hex(t), hex_or_err(&printed)), "ok");
+    judge_or_observe(out, format!("J wptemplate {} {}", hex(t), hex_or_err(&printed)), &printed, expected, class);
+    wp_value_rt(out, t, None);
 }
 
 /// template + BIP-388 key vector (key information items WITHOUT derivation) -> descriptor
-fn wp_judge_into(out: &mut Out, t: &str, keys: &[String], class: &str) {
+fn wp_judge_into(out: &mut Out, t: &str, keys: &[String], class: &str, expected: Expect) {
     let r = catch_unwind(AssertUnwindSafe(|| {
         let mut w = WalletPolicy::from_str(t).ok()?;
         let ks: Vec<DescriptorPublicKey> = keys.iter().map(|k| DescriptorPublicKey::from_str(k)).collect::<Result<_, _>>().ok()?;
@@ -362,7 +400,7 @@ fn wp_judge_into(out: &mut Out, t: &str, keys: &[String], class: &str) {
         w.into_descriptor().ok().map(|d| format!("{:#}", d))
     })).unwrap_or(Some("PANIC".into()));
     out.count(&format!("wp {} into {}", class, if r.is_some() { "descriptor" } else { "ERR" }));
-    out.line(&format!("J wpinto {} {} {}", hex(t), hex(&keys.join(",")), hex_or_err(&r)), "ok");
+    judge_or_observe(out, format!("J wpinto {} {} {}", hex(t), hex(&keys.join(",")), hex_or_err(&r)), &r, expected, class);
 }
 
 pub fn run_wallet_gen(out: &mut Out, thorough: bool, rng: &mut Rng, km: &KeyMaterial) {
@@ -372,35 +410,40 @@ pub fn run_wallet_gen(out: &mut Out, thorough: bool, rng: &mut Rng, km: &KeyMate
     // generated stream only while its probe agrees with the specification
     // W1 repeated key, disjoint pairs: same placeholder
     let rep_desc = format!("wsh(multi(2,{}/<0;1>/*,{}/<0;1>/*,{}/<2;3>/*))", k0, k1, k1);
-    wp_judge_descriptor(out, &rep_desc, "probe-repeated-key");
-    wp_judge_descriptor(out, &format!("wsh(or_d(pk({}/<0;1>/*),and_v(v:pkh({}/<2;3>/*),older(5))))", k0, k0), "probe-repeated-key");
+    wp_judge_descriptor_r(out, &rep_desc, "W1-repeated-key-gets-a-new-placeholder", Some(Some("wsh(multi(2,@0/**,@1/**,@1/<2;3>/*))")));
+    wp_judge_descriptor_r(out, &format!("wsh(or_d(pk({}/<0;1>/*),and_v(v:pkh({}/<2;3>/*),older(5))))", k0, k0), "W1-repeated-key-gets-a-new-placeholder",
+        Some(Some("wsh(or_d(pk(@0/**),and_v(v:pkh(@0/<2;3>/*),older(5))))")));
     let w1_ok = lib_template_str(&rep_desc).as_deref() == Some("wsh(multi(2,@0/**,@1/**,@1/<2;3>/*))");
     // W2 repeated placeholder other than @0
-    wp_judge_template(out, "wsh(multi(2,@0/**,@1/**,@1/<2;3>/*))", "probe-repeated-placeholder");
-    wp_judge_template(out, "wsh(multi(2,@0/**,@1/**,@0/<2;3>/*))", "probe-repeated-placeholder");
+    for t in ["wsh(multi(2,@0/**,@1/**,@1/<2;3>/*))", "wsh(multi(2,@0/**,@1/**,@0/<2;3>/*))"] {
+        wp_judge_template_r(out, t, "W2-valid-template-with-repeated-placeholder-refused", Some(Some(t)));
+    }
     let w2_ok = lib_template_str("wsh(multi(2,@0/**,@1/**,@1/<2;3>/*))").is_some() && lib_template_str("wsh(multi(2,@0/**,@1/**,@0/<2;3>/*))").is_some();
     // W3 descriptors without a BIP-388 template (no multipath / three paths / unordered pair / hardened wildcard / no wildcard / step after the pair)
     let w3_forms = ["/0/*", "/<0;1;2>/*", "/<1;0>/*", "/<0;1>/*h", "/<0;1>", "/<0;1>/7/*", ""];
     let mut w3_ok = true;
     for (fi, f) in w3_forms.iter().enumerate() {
         let d = format!("wpkh({}{})", k0, f);
-        wp_judge_descriptor_r(out, &d, "probe-no-template", fi == 0);
+        let _ = fi;
+        wp_judge_descriptor_r(out, &d, "W3-descriptor-without-a-template-accepted", Some(None));
         if lib_template_str(&d).is_some() { w3_ok = false; }
     }
     // W4 placeholder index spellings
     let mut w4_ok = true;
     for t in ["wpkh(@0x/**)", "wpkh(@00/**)", "wpkh(@0abc/<0;1>/*)"] {
-        wp_judge_template(out, t, "probe-index-spelling");
+        wp_judge_template_r(out, t, "W4-placeholder-index-spelling-accepted", Some(None));
         if lib_template_str(t).is_some() { w4_ok = false; }
     }
     // W6 the first placeholder must be @0
-    wp_judge_template(out, "wpkh(@1/**)", "probe-first-placeholder");
-    wp_judge_template(out, "wsh(multi(2,@1/**,@2/**))", "probe-first-placeholder");
+    wp_judge_template_r(out, "wpkh(@1/**)", "W6-first-placeholder-not-@0-accepted", Some(None));
+    wp_judge_template_r(out, "wsh(multi(2,@1/**,@2/**))", "W6-first-placeholder-not-@0-accepted", Some(None));
     let w6_ok = lib_template_str("wpkh(@1/**)").is_none() && lib_template_str("wsh(multi(2,@1/**,@2/**))").is_none();
     // W5 template + key information items -> descriptor
     let probe_keys = vec![k0.clone(), k1.clone()];
-    wp_judge_into(out, "wsh(multi(2,@0/**,@1/<4;5>/*))", &probe_keys, "probe-into");
-    wp_judge_into(out, "wsh(multi(2,@0/**,@0/<2;3>/*,@1/**))", &probe_keys, "probe-into");
+    let e1 = format!("wsh(multi(2,{}/<0;1>/*,{}/<4;5>/*))", k0, k1);
+    let e2 = format!("wsh(multi(2,{}/<0;1>/*,{}/<2;3>/*,{}/<0;1>/*))", k0, k0, k1);
+    wp_judge_into(out, "wsh(multi(2,@0/**,@1/<4;5>/*))", &probe_keys, "W5-into_descriptor-drops-the-derivation", Some(Some(&e1)));
+    wp_judge_into(out, "wsh(multi(2,@0/**,@0/<2;3>/*,@1/**))", &probe_keys, "W5-into_descriptor-drops-the-derivation", Some(Some(&e2)));
     let w5_ok = {
         let r = catch_unwind(AssertUnwindSafe(|| {
             let mut w = WalletPolicy::from_str("wsh(multi(2,@0/**,@1/<4;5>/*))").ok()?;
@@ -451,7 +494,7 @@ pub fn run_wallet_gen(out: &mut Out, thorough: bool, rng: &mut Rng, km: &KeyMate
         if !repeated || w2_ok { wp_judge_template(out, &t, "gen"); }
         if w5_ok && (!repeated || w2_ok) {
             let kv: Vec<String> = vec_keys.iter().map(|k| keys[*k].clone()).collect();
-            wp_judge_into(out, &t, &kv, "gen");
+            wp_judge_into(out, &t, &kv, "gen", None);
         }
         if i % 2 == 0 && !repeated {
             // broken placeholder rules (the descriptor skeleton stays valid)
@@ -634,5 +677,166 @@ pub fn run_absurd(out: &mut Out, thorough: bool, rng: &mut Rng, km: &KeyMaterial
             let m = mutate(&descs[rng.below(descs.len())], rng);
             nopanic_all(out, &m, km, false, i);
         }
+    }
+}
+
+/* ------------------------------------------------------------ descriptor wrappers vs Model/DescDisplay.lean */
+
+#[derive(Clone, Debug)]
+pub enum TapW { Leaf(Node), Node(Box<TapW>, Box<TapW>) }
+#[derive(Clone, Debug)]
+pub enum DescW { Bare(Node), Pkh(u32), Wpkh(u32), Sh(Node), ShWpkh(u32), ShWsh(Node), Wsh(Node), Tr(u32, Option<TapW>) }
+impl TapW {
+    fn wire(&self) -> String { match self { TapW::Leaf(n) => format!("leaf({})", n.wire()), TapW::Node(l, r) => format!("node({},{})", l.wire(), r.wire()) } }
+}
+impl DescW {
+    fn wire(&self) -> String {
+        match self {
+            DescW::Bare(n) => format!("bare({})", n.wire()), DescW::Pkh(k) => format!("pkh({})", k), DescW::Wpkh(k) => format!("wpkh({})", k),
+            DescW::Sh(n) => format!("sh({})", n.wire()), DescW::ShWpkh(k) => format!("shwpkh({})", k), DescW::ShWsh(n) => format!("shwsh({})", n.wire()),
+            DescW::Wsh(n) => format!("wsh({})", n.wire()), DescW::Tr(k, None) => format!("tr({})", k), DescW::Tr(k, Some(t)) => format!("tr({},{})", k, t.wire()),
+        }
+    }
+}
+
+fn ms_ids<Pk: ast::KeyOf + super::Atom, Ctx: miniscript::ScriptContext>(n: &Node) -> Option<Miniscript<String, Ctx>> {
+    ast::to_ms::<Pk, Ctx>(n).ok()?.translate_pk(&mut super::ToIds).ok()
+}
+fn tap_ids(t: &TapW) -> Option<miniscript::descriptor::TapTree<String>> {
+    use miniscript::descriptor::TapTree;
+    match t {
+        TapW::Leaf(n) => Some(TapTree::leaf(ms_ids::<XOnlyPublicKey, Tap>(n)?)),
+        TapW::Node(l, r) => TapTree::combine(tap_ids(l)?, tap_ids(r)?).ok(),
+    }
+}
+fn desc_ids(d: &DescW) -> Option<Descriptor<String>> {
+    match d {
+        DescW::Bare(n) => Descriptor::new_bare(ms_ids::<PublicKey, BareCtx>(n)?).ok(),
+        DescW::Pkh(k) => Descriptor::new_pkh(k.to_string()).ok(),
+        DescW::Wpkh(k) => Descriptor::new_wpkh(k.to_string()).ok(),
+        DescW::Sh(n) => Descriptor::new_sh(ms_ids::<PublicKey, Legacy>(n)?).ok(),
+        DescW::ShWpkh(k) => Descriptor::new_sh_wpkh(k.to_string()).ok(),
+        DescW::ShWsh(n) => Descriptor::new_sh_wsh(ms_ids::<PublicKey, Segwitv0>(n)?).ok(),
+        DescW::Wsh(n) => Descriptor::new_wsh(ms_ids::<PublicKey, Segwitv0>(n)?).ok(),
+        DescW::Tr(k, None) => Descriptor::new_tr(k.to_string(), None).ok(),
+        DescW::Tr(k, Some(t)) => Descriptor::new_tr(k.to_string(), Some(tap_ids(t)?)).ok(),
+    }
+}
+
+/// the library's descriptor over id strings → wire (own structural walk)
+fn desc_to_wire(d: &Descriptor<String>) -> Option<String> {
+    use miniscript::descriptor::ShInner;
+    fn rebuild(items: &[(u8, Node)], idx: &mut usize, depth: u8) -> Option<TapW> {
+        if *idx >= items.len() { return None; }
+        if items[*idx].0 == depth { let n = items[*idx].1.clone(); *idx += 1; return Some(TapW::Leaf(n)); }
+        if items[*idx].0 < depth { return None; }
+        let l = rebuild(items, idx, depth + 1)?; let r = rebuild(items, idx, depth + 1)?;
+        Some(TapW::Node(Box::new(l), Box::new(r)))
+    }
+    let k = |s: &String| super::canon_u32(s);
+    Some(match d {
+        Descriptor::Bare(b) => DescW::Bare(from_ms(b.as_inner())?),
+        Descriptor::Pkh(p) => DescW::Pkh(k(p.as_inner())?),
+        Descriptor::Wpkh(p) => DescW::Wpkh(k(p.as_inner())?),
+        Descriptor::Sh(sh) => match sh.as_inner() {
+            ShInner::Wsh(w) => DescW::ShWsh(from_ms(w.as_inner())?),
+            ShInner::Wpkh(p) => DescW::ShWpkh(k(p.as_inner())?),
+            ShInner::Ms(m) => DescW::Sh(from_ms(m)?),
+        },
+        Descriptor::Wsh(w) => DescW::Wsh(from_ms(w.as_inner())?),
+        Descriptor::Tr(t) => {
+            let ik = k(t.internal_key())?;
+            let items: Vec<(u8, Node)> = t.leaves().map(|l| from_ms(l.miniscript()).map(|n| (l.depth(), n))).collect::<Option<Vec<_>>>()?;
+            if items.is_empty() { DescW::Tr(ik, None) } else {
+                // a leaf/depth list that is not the pre-order of a binary tree is a malformed OBJECT, not a parse error
+                let mut idx = 0;
+                match rebuild(&items, &mut idx, 0) {
+                    Some(tree) if idx == items.len() => DescW::Tr(ik, Some(tree)),
+                    _ => return Some("MALFORMED-TAPTREE-OBJECT".to_string()),
+                }
+            }
+        }
+    }.wire())
+}
+
+fn descparse_impl(s: &str) -> String {
+    guard(|| {
+        let top = match miniscript::expression::Tree::from_str(s) { Ok(t) => t, Err(_) => return "ERR".into() };
+        match <Descriptor<String> as miniscript::expression::FromTree>::from_tree(top.root()) {
+            Ok(d) => desc_to_wire(&d).unwrap_or_else(|| "ERR".into()),
+            Err(_) => "ERR".into(),
+        }
+    })
+}
+
+fn tap_shape(n_leaves: usize, rng: &mut Rng, leaves: &[Node]) -> TapW {
+    if n_leaves <= 1 { return TapW::Leaf(leaves[rng.below(leaves.len())].clone()); }
+    let k = match rng.below(3) { 0 => 1 + rng.below(n_leaves - 1), 1 => if rng.coin() { 1 } else { n_leaves - 1 }, _ => (n_leaves / 2).max(1) };
+    TapW::Node(Box::new(tap_shape(k, rng, leaves)), Box::new(tap_shape(n_leaves - k, rng, leaves)))
+}
+fn tap_comb(depth: usize, rng: &mut Rng, leaves: &[Node]) -> TapW {
+    let mut t = TapW::Leaf(leaves[rng.below(leaves.len())].clone());
+    for _ in 0..depth {
+        let o = TapW::Leaf(leaves[rng.below(leaves.len())].clone());
+        t = if rng.coin() { TapW::Node(Box::new(t), Box::new(o)) } else { TapW::Node(Box::new(o), Box::new(t)) };
+    }
+    t
+}
+
+pub fn run_desc_model(out: &mut Out, thorough: bool, rng: &mut Rng, ms: &std::collections::BTreeMap<CtxK, Vec<(Node, String)>>) {
+    let mut objs: Vec<DescW> = vec![];
+    for k in [0u32, 1, 7, 9, 10, 4294967295] { objs.push(DescW::Pkh(k)); objs.push(DescW::Wpkh(k)); objs.push(DescW::ShWpkh(k)); objs.push(DescW::Tr(k, None)); }
+    let cap = if thorough { 2500 } else { 300 };
+    let pick = |ctx: CtxK| -> Vec<Node> {
+        let pool = &ms[&ctx];
+        let step = (pool.len() / cap).max(1);
+        pool.iter().step_by(step).filter(|(_, s)| !s.contains("expr_raw")).map(|(n, _)| n.clone()).collect()
+    };
+    for n in pick(CtxK::Segwitv0) { objs.push(DescW::Wsh(n.clone())); objs.push(DescW::ShWsh(n)); }
+    for n in pick(CtxK::Legacy) { objs.push(DescW::Sh(n)); }
+    for n in pick(CtxK::Bare) { objs.push(DescW::Bare(n)); }
+    // tap leaves: those the library accepts as a one-leaf tree
+    let tap_leaves: Vec<Node> = pick(CtxK::Tap).into_iter().filter(|n| desc_ids(&DescW::Tr(1, Some(TapW::Leaf(n.clone())))).is_some()).collect();
+    if !tap_leaves.is_empty() {
+        for n in tap_leaves.iter().take(cap) { objs.push(DescW::Tr(2, Some(TapW::Leaf(n.clone())))); }
+        for i in 2..(if thorough { 60 } else { 14 }) { objs.push(DescW::Tr(3, Some(tap_shape(i, rng, &tap_leaves)))); }
+        for d in [1usize, 2, 30, 127, 128, 129] { objs.push(DescW::Tr(4, Some(tap_comb(d, rng, &tap_leaves)))); }
+    }
+    // miniscript texts (id atoms) usable as tap leaves / inside wsh()
+    let leaf_txt: Vec<String> = tap_leaves.iter().take(60).filter_map(|n| ms_ids::<XOnlyPublicKey, Tap>(n).map(|m| m.to_string())).collect();
+    let seg_txt: Vec<String> = pick(CtxK::Segwitv0).iter().take(60).filter_map(|n| ms_ids::<PublicKey, Segwitv0>(n).map(|m| m.to_string())).collect();
+    let mut printed: Vec<String> = vec![];
+    for o in &objs {
+        let d = match catch_unwind(AssertUnwindSafe(|| desc_ids(o))) { Ok(Some(d)) => d, _ => { out.count("descmodel not-constructible"); continue; } };
+        let s = super::rawpkh_hex_to_ids(&format!("{:#}", d));
+        out.count("descmodel object");
+        out.line(&format!("C desctree {}", o.wire()), &s);
+        out.line(&format!("C descparse {}", hex(&s)), &descparse_impl(&s));
+        if printed.len() < 400 { printed.push(s); }
+    }
+    // not constructible through the API but parseable text forms (the parser decides), and mutations
+    let n = if thorough { 8000 } else { 800 };
+    for i in 0..n {
+        if printed.is_empty() { break; }
+        let base = &printed[rng.below(printed.len())];
+        if base.len() > 2000 { continue; }
+        let m = if i % 4 == 0 && !leaf_txt.is_empty() && !seg_txt.is_empty() {
+            // near-valid wrapper / tap-tree grammar around VALID miniscript texts
+            let tl = &leaf_txt[rng.below(leaf_txt.len())];
+            let base = if rng.below(14) >= 5 && rng.below(14) <= 11 { tl } else { &seg_txt[rng.below(seg_txt.len())] };
+            let base = if rng.coin() { tl } else { base };
+            match rng.below(14) {
+                0 => format!("sh({})", base), 1 => format!("wsh({})", base), 2 => format!("tr(0,{})", base), 3 => format!("tr(0,{{{},{}}})", base, base),
+                4 => format!("sh(wsh({}))", base),
+                // tap-tree grammar: branches with 1 / 3 / 0 children, named branch, round brackets, nested
+                5 => format!("tr(0,{{{}}})", base), 6 => format!("tr(0,{{{},{},{}}})", base, base, base), 7 => "tr(0,{})".to_string(),
+                8 => format!("tr(0,x{{{},{}}})", base, base), 9 => format!("tr(0,({},{}))", base, base),
+                10 => format!("tr(0,{{{},{{{}}}}})", base, base), 11 => format!("tr(0,{},{})", base, base),
+                12 => format!("wsh({},{})", base, base), _ => format!("sh(wpkh({}))", base),
+            }
+        } else { mutate(base, rng) };
+        let ans = descparse_impl(&m);
+        out.count(&format!("descmodel malformed {}", if ans == "ERR" { "ERR" } else if ans == "PANIC" { "PANIC" } else { "ok" }));
+        out.line(&format!("C descparse {}", hex(&m)), &ans);
     }
 }
